@@ -29,7 +29,7 @@ Rebased(i, l, n, N) == Offset(i, n, N) + l
 
 VARIABLE g
 Counts == IF Q THEN {0, 1, 2, 3, 5, 7, 8, 9, 16, 17, 40} ELSE 0..MaxSeries
-Init == g \in [n : Counts, N : 1..MaxShards, q : 1..31, win : {"instant", "range", "late"}]
+Init == g \in [n : Counts, N : 1..MaxShards, q : 1..34, win : {"instant", "range", "late"}]
 Next == UNCHANGED g
 
 Partition == /\ UNION {Shard(i, g.n, g.N) : i \in 0..(g.N - 1)} = 0..(g.n - 1)
@@ -69,7 +69,9 @@ Basket == <<
   Over(<<RFn("max_over_time", <<Metric("m")>>, 20, 0, "none", 0)>>, LAMBDA c : Agg("sum", TRUE, <<"a">>, <<c>>)),
   \* reductions that skip NaN members wherever they sit in the input
   Over(V, LAMBDA c : Agg("max", TRUE, <<>>, <<c>>)), Over(V, LAMBDA c : Agg("min", TRUE, <<>>, <<c>>)),
-  Over(V, LAMBDA c : Agg("min", TRUE, <<"a">>, <<c>>)), Over(V, LAMBDA c : Agg("max", FALSE, <<"i">>, <<c>>)) >>
+  Over(V, LAMBDA c : Agg("min", TRUE, <<"a">>, <<c>>)), Over(V, LAMBDA c : Agg("max", FALSE, <<"i">>, <<c>>)),
+  \* a mean is not the mean of the means of parts of unequal size
+  Over(M, LAMBDA c : Agg("avg", TRUE, <<>>, <<c>>)), Over(M, LAMBDA c : Agg("avg", TRUE, <<"a">>, <<c>>)), Over(M, LAMBDA c : Agg("avg", FALSE, <<"i">>, <<c>>)) >>
 
 \* "late": 12 steps from tick 30 on (the long windows are full there)
 ScnOf(x) == Scn("shard", "C11", TickMs, Data(x.n), Basket[x.q], IF x.win = "late" THEN 30 ELSE 2, IF x.win = "instant" THEN 2 ELSE IF x.win = "range" THEN 13 ELSE 41,
